@@ -8,7 +8,7 @@ from ..rules import tables
 _memo = {}
 
 
-def quoter_audits(ctx, backends=("py", "pyx")):
+def quoter_audits(ctx, backends=("py", "pyx"), ch2=True):
     """Run the emission audits (obligations go to ctx) and return {backend: {name: policy}}, configs."""
     model = ctx.model
     cfgs = configurations(model)
@@ -21,7 +21,7 @@ def quoter_audits(ctx, backends=("py", "pyx")):
         out["py"] = {n: pq.policy(c) for n, (cls, c) in cfgs.items() if cls == "_Quoter"}
     if "pyx" in backends:
         cq = CQuoter(ctx, model)
-        cq.audit()
+        cq.audit(ch2=ch2)
         cfgs_c = configurations(model, "_quoting_c")
         if cfgs_c != cfgs:
             diff = [n for n in cfgs if cfgs.get(n) != cfgs_c.get(n)]
